@@ -7,7 +7,6 @@ use std::process::Command;
 use std::sync::atomic::{AtomicU64, Ordering};
 use std::sync::Arc;
 
-use rayon::prelude::*;
 use serde_json::{json, Value};
 
 use crate::report::{cov, machinery_fail, Report, Scratch, Tier};
@@ -135,7 +134,9 @@ pub fn run(tier: Tier) -> i32 {
         }
     }
     let n_hist = seqs.len();
-    seqs.par_iter().for_each(|s| {
+    // sequential on purpose: nothing else runs in the process, so a deviation here is caused by
+    // what was assembled before, not by what is assembled at the same time
+    seqs.iter().for_each(|s| {
         for (pos, b) in s.iter().enumerate() {
             let o = run_build(&alpha[*b], &dir);
             compare(*b, &o, "history-same-thread", &|| json!({"sequence": s.iter().map(|x| alpha[*x].name()).collect::<Vec<_>>(), "position": pos}));
@@ -143,7 +144,7 @@ pub fn run(tier: Tier) -> i32 {
     });
     // 2. the same sequences (length <= 3) with each build on its own thread, sequentially joined
     let n_thread_hist = AtomicU64::new(0);
-    seqs.par_iter().filter(|s| s.len() <= 3).for_each(|s| {
+    seqs.iter().filter(|s| s.len() <= 3).for_each(|s| {
         n_thread_hist.fetch_add(1, Ordering::Relaxed);
         for (pos, b) in s.iter().enumerate() {
             let bb = alpha[*b].clone();
@@ -155,7 +156,7 @@ pub fn run(tier: Tier) -> i32 {
     // 3. hash-map iteration order: not a choice point the harness can own (std seeds every map
     //    differently); repetition on fresh threads, labelled as such
     let reps = if tier.thorough() { 256 } else { 64 };
-    (0..n * reps).into_par_iter().for_each(|i| {
+    (0..n * reps).for_each(|i| {
         let b = i % n;
         let bb = alpha[b].clone();
         let d = dir.clone();
@@ -308,4 +309,72 @@ pub fn run(tier: Tier) -> i32 {
     }));
     drop(scratch);
     rep.finish(coverage)
+}
+
+/// `./run replay <file>` for kind "history": re-execute the recorded history or schedule without
+/// the explorer and compare every build with its fresh-process outcome again.
+pub fn replay(v: &Value) -> i32 {
+    let scratch = Scratch::new("c17replay");
+    write_files(&scratch.path);
+    let dir: Arc<PathBuf> = Arc::new(scratch.path.clone());
+    let alpha = alphabet();
+    let exe = std::env::current_exe().expect("current_exe");
+    let fresh = |i: usize| -> Value {
+        let out = Command::new(&exe).arg("worker17").arg(i.to_string()).arg(dir.display().to_string()).env("RUST_BACKTRACE", "0").output().expect("spawn");
+        serde_json::from_str(String::from_utf8_lossy(&out.stdout).trim()).unwrap_or(Value::Null)
+    };
+    let idx = |name: &str| alpha.iter().position(|b| b.name() == name);
+    let ctx = &v["context"];
+    let mut bad = 0;
+    let mut cmp = |which: usize, o: &Outcome| {
+        let got = outcome_json(o);
+        let want = fresh(which);
+        let ok = got == want;
+        println!("build {:24} {}", alpha[which].name(), if ok { "= fresh-process outcome".to_string() } else { format!("DIFFERS: {} vs fresh {}", got, want) });
+        if !ok {
+            bad += 1;
+        }
+    };
+    if let Some(threads) = ctx["threads"].as_array() {
+        let cfg: Vec<Vec<usize>> = threads.iter().map(|t| t.as_array().map(|a| a.iter().filter_map(|n| n.as_str().and_then(|n| idx(n))).collect()).unwrap_or_default()).collect();
+        let choices: Vec<usize> = ctx["choices"].as_array().map(|a| a.iter().filter_map(|x| x.as_u64().map(|x| x as usize)).collect()).unwrap_or_default();
+        println!("replaying schedule: threads {:?}, {} recorded choices", threads, choices.len());
+        sut::set_hook(Some(sched::hook));
+        let bodies: Vec<Box<dyn FnOnce() -> Vec<Outcome> + Send>> = cfg
+            .iter()
+            .map(|builds| {
+                let builds: Vec<Build> = builds.iter().map(|b| alpha[*b].clone()).collect();
+                let d = dir.clone();
+                Box::new(move || builds.iter().map(|b| run_build(b, &d)).collect::<Vec<Outcome>>()) as Box<dyn FnOnce() -> Vec<Outcome> + Send>
+            })
+            .collect();
+        let (res, rec) = sched::run_schedule(bodies, &choices, true);
+        sut::set_hook(None);
+        if rec.diverged {
+            println!("DIVERGENCE while replaying the recorded choices (the tree changed the sequence of scheduling points)");
+        }
+        println!("points: {}", rec.points.iter().map(|p| format!("{}:{}", p.thread.map(|t| t.to_string()).unwrap_or("-".into()), p.tag)).collect::<Vec<_>>().join(" "));
+        for (ti, outs) in res.iter().enumerate() {
+            for (pos, o) in outs.iter().enumerate() {
+                cmp(cfg[ti][pos], o);
+            }
+        }
+    } else if let Some(seq) = ctx["sequence"].as_array() {
+        println!("replaying history {:?}", seq);
+        for n in seq.iter().filter_map(|x| x.as_str()) {
+            if let Some(i) = idx(n) {
+                let o = run_build(&alpha[i], &dir);
+                cmp(i, &o);
+            }
+        }
+    } else if let Some(b) = v["build"].as_str().and_then(|n| idx(n)) {
+        let o = run_build(&alpha[b], &dir);
+        cmp(b, &o);
+    }
+    if bad > 0 {
+        println!("REPRODUCED ({} build outcome(s) differ from the fresh-process outcome)", bad);
+        1
+    } else {
+        0
+    }
 }
